@@ -8,6 +8,7 @@
 import HitenModel.Core.C18
 import Mathlib.Analysis.Real.Sqrt
 import Mathlib.Data.Complex.Basic
+import Mathlib.Analysis.Complex.Norm
 import Mathlib.LinearAlgebra.Matrix.ConjTranspose
 import Mathlib.Data.Matrix.Mul
 import Mathlib.Algebra.BigOperators.Fin
@@ -255,6 +256,58 @@ theorem dotFrom_cons (x : ℕ → K) (c : K) (cs : List K) (j : ℕ) :
 
 theorem dotFrom_nil (x : ℕ → K) (j : ℕ) : dotFrom x j [] = 0 := rfl
 
+/-! normalisation (merging like terms, dropping trailing zero exponents and zero coefficients) keeps all values -/
+
+theorem evalMonoFrom_trimMono (x : ℕ → K) : ∀ (k : Mono) (i : ℕ),
+    evalMonoFrom x i (trimMono k) = evalMonoFrom x i k
+  | [], _ => rfl
+  | e :: es, i => by
+    have ih := evalMonoFrom_trimMono x es (i + 1)
+    unfold trimMono
+    cases h : trimMono es with
+    | nil =>
+      rw [h] at ih
+      simp only [evalMonoFrom] at ih
+      by_cases he : e = 0
+      · subst he; simp [evalMonoFrom, kpow, ← ih]
+      · simp [he, evalMonoFrom, ← ih]
+    | cons t ts =>
+      rw [h] at ih
+      simp only [evalMonoFrom] at ih ⊢
+      rw [ih]
+
+theorem evalPoly_insertTerm (x : ℕ → K) (c : K) (k : Mono) : ∀ p : Poly K,
+    evalPoly x (insertTerm c k p) = c * evalMono x k + evalPoly x p
+  | [] => by simp [insertTerm, evalPoly]
+  | (d, k') :: p => by
+    unfold insertTerm
+    by_cases hk : k = k'
+    · subst hk; simp only [if_true, evalPoly]; ring
+    · simp only [hk, if_false, evalPoly, evalPoly_insertTerm x c k p]; ring
+
+theorem evalPoly_foldl_insert (x : ℕ → K) : ∀ (p acc : Poly K),
+    evalPoly x (p.foldl (fun acc t => insertTerm t.1 (trimMono t.2) acc) acc) = evalPoly x acc + evalPoly x p
+  | [], acc => by simp [evalPoly]
+  | (c, k) :: p, acc => by
+    simp only [List.foldl_cons, evalPoly_foldl_insert x p, evalPoly_insertTerm, evalPoly, evalMono,
+      evalMonoFrom_trimMono]
+    ring
+
+theorem evalPoly_filter_ne_zero (x : ℕ → K) : ∀ p : Poly K,
+    evalPoly x (p.filter fun t => t.1 ≠ 0) = evalPoly x p
+  | [] => rfl
+  | (c, k) :: p => by
+    have ih := evalPoly_filter_ne_zero x p
+    by_cases hc : c = 0
+    · simpa [List.filter, hc, evalPoly] using ih
+    · simpa [List.filter, hc, evalPoly] using ih
+
+/-- merging like terms does not change any value -/
+theorem evalPoly_normalize (x : ℕ → K) (p : Poly K) : evalPoly x (normalize p) = evalPoly x p := by
+  unfold normalize
+  rw [evalPoly_filter_ne_zero, evalPoly_foldl_insert]
+  simp [evalPoly]
+
 end poly
 
 /-- on a 6×6 matrix given by its entries, `_substitute_coordinates` is the matrix–vector product -/
@@ -422,6 +475,39 @@ theorem Walk.mem_closed {edges : List Edge} {S : List ℕ} (hS : closedB edges S
     unfold closedB at hS
     rw [List.all_eq_true] at hS
     simpa using hS c this
+
+/-! ### cleaning: the numerical shell of every conversion, with its exact error bound -/
+
+/-- `Σ_k |x^k|` over the terms of `p`: the natural scale of the value of a polynomial at `x` -/
+noncomputable def termScale (x : ℕ → ℂ) : Poly ℂ → ℝ
+  | [] => 0
+  | (_, k) :: p => ‖evalMono x k‖ + termScale x p
+
+theorem termScale_nonneg (x : ℕ → ℂ) : ∀ p : Poly ℂ, 0 ≤ termScale x p
+  | [] => le_rfl
+  | (_, _) :: p => add_nonneg (norm_nonneg _) (termScale_nonneg x p)
+
+/-- zeroing every coefficient of modulus ≤ tol moves the value at any point by at most `tol · Σ_k |x^k|` -/
+theorem clean_bound (tol : ℝ) (htol : 0 ≤ tol) (x : ℕ → ℂ) : ∀ p : Poly ℂ,
+    ‖evalPoly x (cleanTerms (fun c => decide (‖c‖ ≤ tol)) p) - evalPoly x p‖ ≤ tol * termScale x p
+  | [] => by simp [cleanTerms, evalPoly, termScale]
+  | (c, k) :: p => by
+    have ih := clean_bound tol htol x p
+    simp only [cleanTerms, evalPoly, termScale]
+    by_cases hc : ‖c‖ ≤ tol
+    · simp only [hc, decide_true, if_true, zero_mul, zero_add]
+      have : evalPoly x (cleanTerms (fun c => decide (‖c‖ ≤ tol)) p) - (c * evalMono x k + evalPoly x p)
+          = -(c * evalMono x k) + (evalPoly x (cleanTerms (fun c => decide (‖c‖ ≤ tol)) p) - evalPoly x p) := by ring
+      rw [this]
+      refine (norm_add_le _ _).trans ?_
+      rw [norm_neg, Complex.norm_mul, mul_add]
+      exact add_le_add (mul_le_mul_of_nonneg_right hc (norm_nonneg _)) ih
+    · simp only [hc, decide_false, Bool.false_eq_true, if_false]
+      have : c * evalMono x k + evalPoly x (cleanTerms (fun c => decide (‖c‖ ≤ tol)) p) - (c * evalMono x k + evalPoly x p)
+          = evalPoly x (cleanTerms (fun c => decide (‖c‖ ≤ tol)) p) - evalPoly x p := by ring
+      rw [this, mul_add]
+      have h0 : 0 ≤ tol * ‖evalMono x k‖ := mul_nonneg htol (norm_nonneg _)
+      linarith
 
 /-! ### checks over the generated tables (boolean, evaluated by `decide +kernel` in Props/C18.lean) -/
 
